@@ -301,6 +301,93 @@ func runC11Simul(t *testing.T, ids []string, order []int, stalled int) CaseOut {
 	return out
 }
 
+// runC11RefusedThenBack: an established peer is refused later on (it changes the cost it announces, stops listing us, or
+// changes its ID) while the node's writes on that session are stalled, so that the reject message waits; the peer comes
+// back on a new session, which is admissible and is admitted; then the old session's writes go through and it ends.
+// The new session is the peer's connection from then on: listed, with cost entries and a route, and it is the one a third
+// session with the same ID is refused for.
+func runC11RefusedThenBack(t *testing.T, how string) CaseOut {
+	var out CaseOut
+	out.Nontrivial = true
+	bubble(t, func(t *testing.T) {
+		m := newMesh(defaultConsts, "v")
+		upd := func(seq uint64, conns map[string]float64, id string) []byte {
+			return mkRoute(wireRoute{NodeID: id, UpdateID: fmt.Sprintf("%s-%d", id, seq), UpdateEpoch: 70, UpdateSequence: seq, Connections: conns, ForwardingNode: id})
+		}
+		p0 := m.attach("v", "s0")
+		p0.inject(upd(1, map[string]float64{"v": 1}, "r"))
+		synctest.Wait()
+		m.flush()
+		p0.inject(upd(2, map[string]float64{"v": 1}, "r"))
+		synctest.Wait()
+		m.settle()
+		if !hasConn(m.nodes["v"], "r") {
+			out.violate("harness:c11-back-setup", "the first session was not established: %v", connIDs(m.nodes["v"]))
+			m.end()
+			return
+		}
+		stall := make(chan struct{})
+		m.sess["v>s0"].stall = stall
+		switch how {
+		case "cost-change":
+			p0.inject(upd(3, map[string]float64{"v": 7}, "r"))
+		case "stops-listing-us":
+			p0.inject(upd(3, map[string]float64{"zz": 1}, "r"))
+		case "id-change":
+			p0.inject(upd(3, map[string]float64{"v": 1}, "r2"))
+		}
+		synctest.Wait()
+		time.Sleep(300 * time.Millisecond)
+		synctest.Wait()
+		// the peer comes back
+		p1 := m.attach("v", "s1")
+		p1.inject(mkRoute(wireRoute{NodeID: "r", UpdateID: "back-1", UpdateEpoch: 71, UpdateSequence: 1, Connections: map[string]float64{"v": 1}, ForwardingNode: "r"}))
+		synctest.Wait()
+		m.flush()
+		p1.inject(mkRoute(wireRoute{NodeID: "r", UpdateID: "back-2", UpdateEpoch: 71, UpdateSequence: 2, Connections: map[string]float64{"v": 1}, ForwardingNode: "r"}))
+		synctest.Wait()
+		m.flush()
+		time.Sleep(300 * time.Millisecond)
+		synctest.Wait()
+		admitted := !p1.isClosed() && !m.sentReject("v", "s1") && hasConn(m.nodes["v"], "r")
+		// now the old session's writes go through
+		close(stall)
+		synctest.Wait()
+		m.settle()
+		time.Sleep(time.Second)
+		synctest.Wait()
+		m.settle()
+		ctx := "established peer refused for " + how + " while its session's writes were stalled, came back on a new session, then the old session ended"
+		if !admitted {
+			out.count("comeback_not_admitted", 1) // the ID was still taken: nothing further to judge
+			out.Outcome = "refused-then-back: not admitted"
+			m.end()
+			return
+		}
+		st := m.nodes["v"].Status()
+		if !hasConn(m.nodes["v"], "r") {
+			out.violate("admit:successor-session-forgotten:connection", "%s: the new session is open and was never refused, but r is not among the connections %v", ctx, connIDs(m.nodes["v"]))
+		}
+		if _, ok := st.KnownConnectionCosts["v"]["r"]; !ok {
+			out.violate("admit:successor-session-forgotten:cost-entry", "%s: no cost entry v->r: %v", ctx, st.KnownConnectionCosts)
+		}
+		if st.RoutingTable["r"] != "r" {
+			out.violate("admit:successor-session-forgotten:route", "%s: routing table %v", ctx, st.RoutingTable)
+		}
+		// one connection per ID: a third session with that ID is refused
+		p2 := m.attach("v", "s2")
+		p2.inject(mkRoute(wireRoute{NodeID: "r", UpdateID: "third-1", UpdateEpoch: 72, UpdateSequence: 1, Connections: map[string]float64{"v": 1}, ForwardingNode: "r"}))
+		synctest.Wait()
+		m.settle()
+		if !p1.isClosed() && !p2.isClosed() && !m.sentReject("v", "s2") {
+			out.violate("admit:duplicate-id-session-kept", "%s: a third session announcing r was admitted next to the open second one", ctx)
+		}
+		out.Outcome = "refused-then-back: " + how
+		m.end()
+	})
+	return out
+}
+
 // twin: two real nodes with the same ID; the later-started one must shut itself down
 func runC11Twin(t *testing.T, names []string, edges [][2]string, twinOf, attachAt string, r *xrun) []Violation {
 	var out CaseOut
@@ -386,6 +473,10 @@ func perms(multiset []int) [][]int {
 }
 
 func runC11(w *W) {
+	for _, how := range []string{"cost-change", "stops-listing-us", "id-change"} {
+		how := how
+		w.Case("refused later, back on a new session: "+how, func() CaseOut { return runC11RefusedThenBack(w.T, how) })
+	}
 	for _, ann := range []string{"", "v", "p", "q", "g", "px"} {
 		for _, od := range []bool{false, true} {
 			for _, cost := range []string{"absent", "equal", "different"} {
